@@ -8,10 +8,28 @@
    inserted verbatim between its literal segments `seg h 0 .. seg h 7`.
    BuildDef.build_model_M adds `exec` (an oracle for CPython's exec of a class text) and the CODE attribute.
    What only CPython can tell (that annotations do not change behaviour, that exec of equal texts gives equal classes) is
-   observed by the correspondence check, not proved. *)
+   observed by the correspondence check, not proved.
+
+   HONEST SCOPE (after the independent review):
+   * "evaluation results on all data" and "a valid model that solves trivially" have NO theorem: they are oracle-only (four
+     routes executed by CPython, _evaluate at several periods incl. boundary ones, two passes, finite and NaN/inf data; solve()).
+     The kernel-checked link between the METHOD code of the two templates is C15_templates_agree_modulo_hints
+     (+ C15_attribute_lines_agree, C15_names_and_check_lines); C15_four_routes / C15_routes_same_behaviour are about
+     BuildRoutes.exec_M, a template UN-FILLER (read ∘ fill = id) that accepts any block: the first conjunct of C15_four_routes
+     ("build_model returns the class") holds by the choice exec_oracle := exec_M and is not counted as covering a clause; what
+     these theorems do add: both templates carry the same seven fields to the same attribute lines, so the tuple a text denotes
+     does not depend on the template or the route (K_exec validates exec_M against CPython on every generated text).
+   * theorems that only unfold a definition (not counted): C15_stateless_converter, C15_no_equation_no_code,
+     C15_empty_symbols, C15_no_equations_pass, C15_code_is_text.
+   * the lags / leads options are delegated to Classify.class_of (C03_lags_leads); C15_build_def says the fields come from
+     class_of syms o for every o.
+   * KNOWN FINDING: "a namespace that provides BaseModel" is not enough for the typed text (C15_exec_namespace_refuted).
+   * a docstring edit in ONE template, a new kind of type hint, another field order or text after {equations} make
+     C15_templates_agree_modulo_hints / C15_template_fields fail to compile: reported as a broken proof
+     (VIOLATION … no-failing-input-found unless the oracle also fails); K_text is byte for byte and stricter than the property. *)
 From Coq Require Import String Ascii List Bool Arith ZArith.
 Import ListNotations.
-Require Import PyBase Generated PyStr Symbols ParseEq ParseModel Classify BuildDef BuildDefFacts BuildDefExamples BuildRepr BuildReprFacts BuildIndentFacts BuildRoutes BuildRoutesFacts BuildAgreeC01.
+Require Import PyBase Generated PyStr Symbols ParseEq ParseModel Classify BuildDef BuildDefFacts BuildDefExamples BuildRepr BuildReprFacts BuildIndentFacts BuildRoutes BuildRoutesFacts BuildAgreeC01 BuildNamespace.
 Open Scope string_scope.
 
 (* the typed and the untyped template are the same text once the type hints are erased (kernel-checked on the strings
@@ -241,3 +259,34 @@ Theorem C15_retry_each_listed : forall Cls (exec : string -> exec_res Cls) syms 
                                   end) syms.
 Proof. exact retry_each_listed. Qed.
 Print Assumptions C15_retry_each_listed.
+
+(* KNOWN FINDING (reviewer-E): "executing the text in a namespace that provides BaseModel" — every typed class text begins with
+   the executed annotation `ENDOGENOUS: List[str] = …` and the typed template also names Optional and Any: with BaseModel alone
+   exec raises NameError.  The untyped template names none of them (and np only inside equations that use exp / log). *)
+Theorem C15_exec_namespace_refuted : forall c eqs,
+  contains "ENDOGENOUS: List[str] = " (fill true c eqs) = true /\
+  contains "Optional[int]" model_template_typed = true /\ contains ": Any" model_template_typed = true.
+Proof. exact exec_namespace_refuted. Qed.
+Print Assumptions C15_exec_namespace_refuted.
+Theorem C15_untyped_names_nothing_else :
+  contains "List" model_template_untyped = false /\ contains "Optional" model_template_untyped = false /\
+  contains "Any" model_template_untyped = false /\ contains "np." model_template_untyped = false.
+Proof. exact untyped_names_nothing_else. Qed.
+Print Assumptions C15_untyped_names_nothing_else.
+
+(* NAMES = ENDOGENOUS + EXOGENOUS + PARAMETERS + ERRORS and CHECK = ENDOGENOUS in the regenerated templates: the literal segment
+   between the ERRORS literal and the LAGS literal, typed and untyped, equal modulo hints *)
+Theorem C15_names_and_check_lines :
+  seg false 4 = nl_s ++ nl_s ++ "    NAMES = ENDOGENOUS + EXOGENOUS + PARAMETERS + ERRORS" ++ nl_s ++ "    CHECK = ENDOGENOUS" ++ nl_s ++ nl_s ++ "    LAGS = " /\
+  seg true 4 = nl_s ++ nl_s ++ "    NAMES: List[str] = ENDOGENOUS + EXOGENOUS + PARAMETERS + ERRORS" ++ nl_s ++ "    CHECK: List[str] = ENDOGENOUS" ++ nl_s ++ nl_s ++ "    LAGS: int = " /\
+  erase_hints (seg true 4) = seg false 4.
+Proof. exact names_and_check_lines. Qed.
+Print Assumptions C15_names_and_check_lines.
+
+(* the block of equations is the body of _evaluate: the segment before it contains the header of `def _evaluate(` and ends
+   with the closing quotes of its docstring; nothing follows the block *)
+Theorem C15_block_follows_evaluate_docstring : forall h,
+  contains "    def _evaluate(self, t" (seg h 6) = true /\
+  ends_with ("        """"""" ++ nl_s) (seg h 6) = true /\ seg h 7 = "".
+Proof. exact block_follows_evaluate_docstring. Qed.
+Print Assumptions C15_block_follows_evaluate_docstring.
